@@ -10,8 +10,8 @@ from . import check_world as CW
 MODULES = {
     "C02": ["NSG.Properties.C02"],
     "C03": ["NSG.Properties.C03", "NSG.Properties.C03Loader"],
-    "C08": ["NSG.Properties.C08"],
-    "C11": ["NSG.Properties.C11"],
+    "C08": ["NSG.Properties.C08", "NSG.Properties.SystemInv"],
+    "C11": ["NSG.Properties.C11", "NSG.Properties.SystemInv"],
     "C12": ["NSG.Properties.C12", "NSG.Properties.C12Coord"],
 }
 RULES = {
